@@ -40,6 +40,8 @@ type under struct {
 	script []step
 	i      int
 	unit   int // byte counts are recorded in this unit (1, or 1 MiB in the multi-gigabyte run)
+	quiet  bool // tight run: no event per write, only the running total (recorded once at the end)
+	total  int
 }
 
 // scaled converts a byte count to the run's unit; a count that is not a whole number of units is recorded as an impossible value
@@ -62,7 +64,11 @@ func (u *under) next(req int) (int, error) {
 	if st.n > req {
 		st.n = req
 	}
-	u.b.Emit(ev{E: "u", N: scaled(st.n, u.unit), Err: st.err, Req: scaled(req, u.unit)})
+	if u.quiet {
+		u.total += st.n
+	} else {
+		u.b.Emit(ev{E: "u", N: scaled(st.n, u.unit), Err: st.err, Req: scaled(req, u.unit)})
+	}
 	if st.err {
 		return st.n, errors.New("scripted failure")
 	}
@@ -101,6 +107,7 @@ func main() {
 	defer w.Close()
 	bigBuf := make([]byte, 64<<20) // never touched: the scripted writers only report counts
 	bigStr := unsafe.String(&bigBuf[0], len(bigBuf))
+	hung := 0
 	for run := 0; run < *runs; run++ {
 		log := evlog.New()
 		wb, cb, mb := log.Buf(), log.Buf(), log.Buf()
@@ -109,6 +116,11 @@ func main() {
 			nw = 200 + rng.Intn(300) // many small writes against a concurrently draining consumer
 		}
 		u := &under{b: wb, unit: 1}
+		tight := run == *runs-2 || run == *runs/2 // tens of thousands of tiny writes against a consumer receiving in a tight loop, nothing in between
+		if tight {
+			nw = 30000
+			u.quiet = true
+		}
 		huge := run == *runs-1 // one run moves more than 4 GiB: totals beyond 2^32 (a large download), counted in MiB
 		if huge {
 			nw = 90
@@ -143,11 +155,22 @@ func main() {
 			pw = ioutil.NewProgressWriter(plainWriter{u})
 		}
 		consumer := []string{"absent", "fast", "slow", "late"}[run%4]
+		if tight {
+			consumer = "fast"
+		}
 		var writerDone, closing atomic.Bool
 		done := make(chan struct{})
 		go func() { // writer
 			defer close(done)
 			for i := 0; i < nw; i++ {
+				if tight {
+					pw.Write(bigBuf[:1+i%7])
+					if i == nw-1 {
+						wb.Emit(ev{E: "u", N: u.total, Req: u.total}) // all the counts the wrapped writer reported, in one event
+						wb.Emit(ev{E: "size", N: pw.Size()})
+					}
+					continue
+				}
 				req := 1 + rng.Intn(12)
 				if huge {
 					req = 64 << 20
@@ -190,8 +213,16 @@ func main() {
 			case "late":
 				time.Sleep(time.Duration(100+rng.Intn(400)) * time.Microsecond)
 			}
+			lastV, anyV := 0, false
 			for {
 				v, ok := <-pw.Status()
+				if tight && ok {
+					lastV, anyV = v, true // tight run: received values are not recorded one by one
+					continue
+				}
+				if tight && anyV {
+					cb.Emit(ev{E: "r", N: lastV, OK: true})
+				}
 				cb.Emit(ev{E: "r", N: scaled(v, u.unit), OK: ok})
 				if !ok {
 					return
@@ -229,5 +260,16 @@ func main() {
 			}
 		}
 		w.Put(map[string]any{"evs": log.Merge(), "consumer": consumer, "stringwriter": isSW, "note": fmt.Sprintf("writes=%d", nw)})
+		select {
+		case <-done:
+		default:
+			hung++ // the writer never came back from Write / Close: its goroutine is lost
+		}
+		if stalled {
+			hung++
+		}
+		if hung >= 3 {
+			break // three runs with a writer that never returned are enough evidence; each further one costs seconds
+		}
 	}
 }
